@@ -2,16 +2,19 @@
 
     A case is one history on several live DSU values: the initial element count, the calls (each on
     a chosen live copy, or a clone), and what the implementation did: the value returned by every
-    call (or a panic, which ends the history), a snapshot of the touched copy's hooked arrays
-    [(p, sz)] whenever they differ from the last snapshot of that copy, and the arrays of every copy
-    at the end.
+    call (or a panic: the unwind is caught and the history goes on with the value the call left behind),
+    a snapshot of the touched copy's hooked arrays [(p, sz)] whenever they differ from the last snapshot
+    of that copy, and the arrays of every copy at the end.  [OX] stands for "a cross-check the executor
+    makes on an auxiliary entry point failed" (Debug rendering after reset / clone / clone_from, see the
+    executor); it is never accepted.
 
     [model_check]: the model (C05.Model) returns the same values and has the same arrays.
     [spec_check]: decided without the model, by replaying the unions on a naive partition (a list
     of class labels): check/un/size answers are exact, [par] answers are constrained only as far as
     the property goes (member of the class; one value per class; stable until a union joins the
     class), and every snapshot is a forest whose roots are class members, whose root sizes are the
-    class cardinalities, and in which every parent chain has length <= log2 (class size). *)
+    class cardinalities, and in which every parent chain has length <= log2 (class size).  A call with an
+    index out of range must panic and must leave a value that still represents the same partition. *)
 From Coq Require Import List Arith NArith Bool.
 From RlibV Require Import Common.Batch C05.Model.
 Import ListNotations.
@@ -19,8 +22,8 @@ Import ListNotations.
 Inductive nop :=
 | NUn (c u v : N) | NPar (c v : N) | NCheck (c u v : N) | NSize (c v : N) | NReset (c n : N) | NClone (c : N).
 
-(** returned value; [OP] = the call panicked *)
-Inductive oret := OB (b : bool) | ON (k : N) | OU | OP.
+(** returned value; [OP] = the call panicked; [OX] = an executor cross-check failed (never accepted) *)
+Inductive oret := OB (b : bool) | ON (k : N) | OU | OP | OX.
 Definition snap : Type := list N * list N.
 Definition obs : Type := oret * option snap.
 
@@ -121,24 +124,50 @@ Definition snap_eqb (s : dsu) (x : snap) : bool := lN_eqb (p s) (fst x) && lN_eq
     exactly when the touched copy's arrays differ from the last one shown. *)
 Definition dsu_eqb (a b : dsu) : bool := leqb Nat.eqb (p a) (p b) && leqb Nat.eqb (sz a) (sz b).
 
+(** the snapshot rule for the touched copy [c] whose arrays are now [s]; returns the new [last] *)
+Definition snap_step (last : list (option dsu)) (c : nat) (s : dsu) (sn : option snap)
+  : option (list (option dsu)) :=
+  let shown := match nth_error last c with Some (Some s0) => dsu_eqb s0 s | _ => false end in
+  let last0 := if length last <=? c then last ++ [None] else last in
+  match sn with
+  | None => if shown then Some last0 else None
+  | Some x => if negb shown && snap_eqb s x then Some (put last0 c (Some s)) else None
+  end.
+
 Fixpoint model_run (cs : list dsu) (last : list (option dsu)) (ops : list nop) (os : list obs)
-  : option (list dsu) :=     (* None = disagreement; Some cs = agreed so far, cs = final copies ([] after a panic) *)
+  : option (list dsu) :=     (* None = disagreement; Some cs = agreed so far, cs = final copies *)
   match ops, os with
   | [], [] => Some cs
   | o :: ops', (r, sn) :: os' =>
       match mstep cs (to_mop o) with
       | Fuel => None
-      | Panic => match r, sn, os' with OP, None, [] => Some [] | _, _, _ => None end
+      | Panic =>
+          (* the implementation must panic too; the history goes on with the value the call left behind *)
+          match r with
+          | OP =>
+              match to_mop o with
+              | On c op =>
+                  match nth_error cs c with
+                  | Some s =>
+                      let s' := panic_state s op in
+                      match snap_step last c s' sn with
+                      | Some last' => model_run (put cs c s') last' ops' os'
+                      | None => None
+                      end
+                  | None => match sn, os' with None, [] => Some [] | _, _ => None end   (* no such copy: the executor dies *)
+                  end
+              | Clone _ => match sn, os' with None, [] => Some [] | _, _ => None end
+              end
+          | _ => None
+          end
       | Ok (cs', c, rv) =>
           if ret_eqb rv r then
             match nth_error cs' c with
             | None => None
             | Some s =>
-                let shown := match nth_error last c with Some (Some s0) => dsu_eqb s0 s | _ => false end in
-                let last0 := if length last <=? c then last ++ [None] else last in
-                match sn with
-                | None => if shown then model_run cs' last0 ops' os' else None
-                | Some x => if negb shown && snap_eqb s x then model_run cs' (put last0 c (Some s)) ops' os' else None
+                match snap_step last c s sn with
+                | Some last' => model_run cs' last' ops' os'
+                | None => None
                 end
             end
           else None
@@ -250,10 +279,22 @@ Fixpoint spec_run (qs : list part) (ops : list nop) (os : list obs) : option (li
   match ops, os with
   | [], [] => Some qs
   | o :: ops', (r, sn) :: os' =>
+      let c := cidx o in
       if must_panic qs o then
-        match r, sn, os' with OP, None, [] => Some [] | _, _, _ => None end
+        (* it must panic, and the value it leaves must still be a forest for the unchanged partition *)
+        match r with
+        | OP =>
+            match nth_error qs c with
+            | Some q =>
+                match opt_snap q sn with
+                | None => None
+                | Some q2 => spec_run (put qs c q2) ops' os'
+                end
+            | None => match sn, os' with None, [] => Some [] | _, _ => None end
+            end
+        | _ => None
+        end
       else
-        let c := cidx o in
         match nth_error qs c with
         | None => None
         | Some q =>
@@ -287,7 +328,17 @@ Fixpoint explain_run (cs : list dsu) (ops : list nop) : list (oret * list N * li
           let r := match rv with RB b => OB b | RN k => ON (N.of_nat k) | RU => OU end in
           let s := nth c cs' (mk [] []) in
           (r, map N.of_nat (p s), map N.of_nat (sz s)) :: explain_run cs' ops'
-      | _ => [(OP, [], [])]
+      | Panic =>
+          match to_mop o with
+          | On c op =>
+              match nth_error cs c with
+              | Some s => let s' := panic_state s op in
+                          (OP, map N.of_nat (p s'), map N.of_nat (sz s')) :: explain_run (put cs c s') ops'
+              | None => [(OP, [], [])]
+              end
+          | Clone _ => [(OP, [], [])]
+          end
+      | Fuel => [(OX, [], [])]
       end
   end.
 Definition explain (c : case) := explain_run [new (nn (c_n c))] (c_ops c).
